@@ -5,8 +5,8 @@ Model of src/Bpp/Numeric/TransformedParameter.h (RTransformedParameter,
 IntervalTransformedParameter -- hyperbolic and tangent variants --,
 PlaceboTransformedParameter), generic over `Scalar α`.
 
-Transcription of the code that exists (after the two `fix:` commits recorded in
-findings/C11.json): same operations in the same order, so that the `Float`
+Transcription of the code that exists (after the `fix:` commits recorded in
+findings/C11.json, three `fix:` commits): same operations in the same order, so that the `Float`
 instance reproduces the C++ bit for bit.
 
 * `paramSet` is `Parameter::setValue` (Parameter.cpp:55-64) of a parameter with no
@@ -112,17 +112,19 @@ def setOriginal (pi : α) (t : IT α) (value : α) : Option (IT α) :=
   if leb value t.lo || geb value t.hi then none
   else some { t with x := paramSet t.x (fwd pi t.scale t.lo t.hi t.hyper value) }
 
-/-- `getOriginalValue` (TransformedParameter.h:208-215) -/
+/-- `getOriginalValue` (TransformedParameter.h:208-218), with the final clamp to `[lo,hi]` -/
 def getOriginal (pi : α) (t : IT α) : α :=
-  if t.hyper then (tanh (t.x / t.scale) + one) * (t.hi - t.lo) / two + t.lo
-  else (atan (t.x / t.scale) + pi / two) * (t.hi - t.lo) / pi + t.lo
+  let x2 := if t.hyper then (tanh (t.x / t.scale) + one) * (t.hi - t.lo) / two + t.lo
+    else (atan (t.x / t.scale) + pi / two) * (t.hi - t.lo) / pi + t.lo
+  let x2 := if ltb x2 t.lo then t.lo else x2
+  if gtb x2 t.hi then t.hi else x2
 
-/-- `getFirstOrderDerivative` (TransformedParameter.h:218-225) -/
+/-- `getFirstOrderDerivative` (TransformedParameter.h:221-228) -/
 def d1 (pi : α) (t : IT α) : α :=
   if t.hyper then one / (sq (cosh (t.x / t.scale))) * (t.hi - t.lo) / (two * t.scale)
   else (t.hi - t.lo) / (pi * t.scale * (sq (t.x / t.scale) + one))
 
-/-- `getSecondOrderDerivative` (TransformedParameter.h:226-233) -/
+/-- `getSecondOrderDerivative` (TransformedParameter.h:229-236) -/
 def d2 (pi : α) (t : IT α) : α :=
   if t.hyper then
     (-one) / (sq (cosh (t.x / t.scale))) * tanh (t.x / t.scale) * (t.hi - t.lo) / (t.scale * t.scale)
